@@ -597,6 +597,7 @@ class Relay:
       ("write", bytes) - needs the peer's handshake to be complete
       ("wait_recv", n) - guard: the peer has read >= n plaintext bytes
       ("wait_close",)  - guard: the peer has seen the library's close_notify
+      ("wait_until", f) - guard: the harness predicate f() is true
       ("unwrap",)      - the peer sends close_notify
     ``cut`` = offset o: the peer->library stream ends (raw EOF) after exactly o bytes, ``cut_when`` 'reached' = as soon
     as o bytes have been delivered, 'exceeded' = when the first byte beyond o would be delivered; ``cut_full``: the
@@ -693,6 +694,11 @@ class Relay:
                 continue
             if kind == "wait_close":
                 if not peer.saw_close_notify:
+                    return
+                self.script_pos += 1
+                continue
+            if kind == "wait_until":
+                if not act[1]():
                     return
                 self.script_pos += 1
                 continue
